@@ -108,5 +108,24 @@ class C09Mgr(MgrBase):
         return cases
 
 
+class C09Release(C09):
+    """the same upload histories against a release build (wrapping arithmetic), model evaluated with ovf = false"""
+    release = True
+    ovf = "false"
+    coq_header = ("From Rdest Require Import Base Consts Wire Manager Handler Corr.Hnd.\nOpen Scope N_scope.\n"
+                  "Definition codes := codes09r.\n")
+
+    def corpus(self):
+        return [Case(c.line, "release-" + c.kind, c.info) if False else self._retag(c) for c in C09.corpus(self)]
+
+    def gen(self, rng, tier):
+        return [self._retag(c) for c in C09.gen(self, rng, "quick")]
+
+    def _retag(self, c):
+        c.kind = "release-" + c.kind
+        return c
+
+
 PROP = C09()
 PROP.parts = [PROP, C09Mgr()]
+PROP.release_parts = [C09Release()]
